@@ -22,6 +22,7 @@ completes" hypothesis.  Namespace prefixes are not modelled.
 import XmlDiffModel.Proofs.Chaw6
 import XmlDiffModel.Proofs.Prog3
 import XmlDiffModel.Proofs.Strict
+import XmlDiffModel.Proofs.EqScript
 import XmlDiffModel.Props.C18
 import XmlDiffModel.Proofs.Patch
 import XmlDiffModel.Props.C07
@@ -169,6 +170,52 @@ theorem C03_different_documents_nonempty_script (M : List (Nat × Nat)) (hL : L.
   simp only [runShipped, runWith, Except.ok.injEq, PState.mk.injEq] at hrun
   exact hne (hrun.1 ▸ hd)
 
+/-- C03, first clause: **equal documents get the empty script**, in the default mode, with `best_match` and with
+`fast_match`, for documents of any size and shape (identical siblings, repeated subtrees, duplicate unique-attribute
+values), and the differ's working copy stays the left document.  "Equal" is `docEq cfg.ignored`: same tags, texts,
+tails, comments, child order and non-ignored attributes (attribute order aside).  What is assumed about the
+similarity oracle (`node_ratio`'s float arithmetic is not modelled) is what the code computes for identical nodes
+(checked against the real `node_ratio` on every run, unit U2eq): a node against its own counterpart scores exactly
+1.0 when asked with all its children matched (`SimOK`), and, for `fast_match` only, a node that reaches `F` against
+some node with nothing matched yet also reaches `F` against its own counterpart (`FastOK`).  `F ≤ 1.0` is the
+option domain. -/
+theorem C03_equal_documents_empty_script (sim : Sim) (hF0 : 0 < cfg.F) (hF1 : cfg.F ≤ Score.one) (hL : L.WF)
+    (hR : R.WF) (heq : docEq cfg.ignored L R)
+    (hs : EqM.SimOK sim (postNodes L).dropLast (postNodes R).dropLast)
+    (hf : cfg.fastMatch = true → EqM.FastOK cfg sim (postNodes L).dropLast (postNodes R).dropLast) :
+    scriptGen qn cfg L R (matchNodes cfg sim L R) fresh = .ok ([], L) :=
+  EqM.scriptGen_equal qn cfg L R _ fresh
+    ⟨hL, hR, heq, EqM.matchNodes_iso cfg sim L R heq hL hR hF0 hF1 hs hf⟩
+
+/-- C03 in one statement: under the C01 domain and the oracle assumptions above, the script is empty exactly when
+the documents are equal. -/
+theorem C03_empty_script_iff_equal (sim : Sim) (hF0 : 0 < cfg.F) (hF1 : cfg.F ≤ Score.one) (hL : L.WF) (hR : R.WF)
+    (hdisj : ∀ i ∈ ids L, i ∉ ids R) (hfL : ∀ i ∈ ids L, i < fresh) (hfR : ∀ i ∈ ids R, i < fresh)
+    (hroot : L.payload.kind = R.payload.kind)
+    (hA : ∀ x ∈ Tree.bfs R, (keys x.payload.attrs).Nodup)
+    (hC : ∀ x ∈ Tree.bfs R, x.payload.kind = .comment → x.payload.tag = [])
+    (hs : docEq cfg.ignored L R → EqM.SimOK sim (postNodes L).dropLast (postNodes R).dropLast)
+    (hf : docEq cfg.ignored L R → cfg.fastMatch = true →
+      EqM.FastOK cfg sim (postNodes L).dropLast (postNodes R).dropLast) :
+    (∃ final, scriptGen qn cfg L R (matchNodes cfg sim L R) fresh = .ok ([], final)) ↔ docEq cfg.ignored L R := by
+  constructor
+  · rintro ⟨final, h⟩
+    apply Classical.byContradiction
+    intro hne
+    exact C03_different_documents_nonempty_script qn cfg L R fresh [] final _ hL hR hdisj hfL hfR
+      (matchNodes_good cfg sim L R hF0 hL hR hroot) hA hC h hne rfl
+  · intro heq
+    exact ⟨L, C03_equal_documents_empty_script qn cfg L R fresh sim hF0 hF1 hL hR heq (hs heq) (hf heq)⟩
+
+/-- C13, first clause: two documents that **differ only in ignored attributes** get the empty script
+(`docEq cfg.ignored` does not look at the attributes named in `cfg.ignored`). -/
+theorem C13_ignored_only_differences_empty_script (sim : Sim) (S : List Str) (hS : cfg.ignored = S)
+    (hF0 : 0 < cfg.F) (hF1 : cfg.F ≤ Score.one) (hL : L.WF) (hR : R.WF) (heq : docEq S L R)
+    (hs : EqM.SimOK sim (postNodes L).dropLast (postNodes R).dropLast)
+    (hf : cfg.fastMatch = true → EqM.FastOK cfg sim (postNodes L).dropLast (postNodes R).dropLast) :
+    scriptGen qn cfg L R (matchNodes cfg sim L R) fresh = .ok ([], L) :=
+  C03_equal_documents_empty_script qn cfg L R fresh sim hF0 hF1 hL hR (hS ▸ heq) hs hf
+
 /-- C13, third clause: with ignored attributes the patched left document equals the right one up to those
 attributes (`docEq cfg.ignored` compares only attributes that are not ignored). -/
 theorem C13_patched_equals_right_up_to_ignored (M : List (Nat × Nat)) (hL : L.WF) (hR : R.WF)
@@ -197,4 +244,26 @@ example :
         | .ok (sc, _) => sc.length
         | .error _ => 0) = 4 := by
   decide +kernel
+
+/-- Non-vacuity of `C03_equal_documents_empty_script` / `C13_ignored_only_differences_empty_script`: two documents
+with identical siblings that differ in an ignored attribute only; every hypothesis holds (with the oracle that answers
+1.0) and the generator returns the empty script. -/
+example :
+    let e (t : String) (a : List (Str × Str)) : Payload := ⟨.elem, t.toList, a, none, none⟩
+    let L : Tree := .node 0 (e "a" [("v".toList, "1".toList)]) [.node 1 (e "b" []) [], .node 2 (e "b" []) []]
+    let R : Tree := .node 10 (e "a" [("v".toList, "2".toList)]) [.node 11 (e "b" []) [], .node 12 (e "b" []) []]
+    let cfg : Cfg := ⟨5, [], false, false, ["v".toList]⟩
+    let sim : Sim := fun _ _ _ => Score.one
+    (ids L).Nodup ∧ (ids R).Nodup ∧ docEq cfg.ignored L R ∧
+      EqM.SimOK sim (postNodes L).dropLast (postNodes R).dropLast ∧
+      (match scriptGen QName.plain cfg L R (matchNodes cfg sim L R) 20 with
+        | .ok (sc, _) => sc.length
+        | .error _ => 1) = 0 := by
+  refine ⟨by decide, by decide, ?_, ?_, by decide +kernel⟩
+  · simp only [docEq, docEqL, PayEq, attrGet, and_true, true_and]
+    refine ⟨?_, fun _ _ => trivial, fun _ _ => trivial⟩
+    intro k hk
+    have : ¬ ("v".toList = k) := fun e => hk (by rw [← e]; exact List.mem_singleton.2 rfl)
+    rw [if_neg this, if_neg this]
+  · intro p _; rfl
 end XmlDiffModel
